@@ -45,6 +45,8 @@ type univFact struct {
 }
 
 type GuardCtx struct {
+	resFacts  map[*ssa.Call][]Fact
+	resCond   map[resCondKey][]Fact
 	P         *Prog
 	Fn        *ssa.Function
 	PC        *PolyCtx
@@ -572,6 +574,9 @@ func (g *GuardCtx) AllFacts(goal Poly, at ssa.Instruction) []Fact {
 			facts = append(facts, iu.F)
 		}
 	}
+	// what module helpers say about the objects they returned, whichever way they returned
+	// (`return result{idx: max(found, lowest), ...}`), for the calls that come before this point
+	facts = append(facts, g.resultFacts(at)...)
 	// intrinsic facts for the symbols of the goal and of the facts so far
 	all := goal.clone()
 	for _, f := range facts {
@@ -1081,4 +1086,104 @@ func DeriveLenInvariants(p *Prog, runPhase map[*ssa.Function]bool) *LenInvariant
 		}
 	}
 	return inv
+}
+
+// resultFacts: facts about fields of struct results of module helpers called before `at`.
+func (g *GuardCtx) resultFacts(at ssa.Instruction) []Fact {
+	if g.resFacts == nil {
+		g.resFacts = map[*ssa.Call][]Fact{}
+		Instrs(g.Fn, func(in ssa.Instruction) {
+			call, ok := in.(*ssa.Call)
+			if !ok || call.Call.IsInvoke() {
+				return
+			}
+			h := call.Call.StaticCallee()
+			if !isModuleFn(h) || h == g.Fn || len(h.Blocks) == 0 {
+				return
+			}
+			structRes := false
+			res := h.Signature.Results()
+			for i := 0; i < res.Len(); i++ {
+				if derefStruct(res.At(i).Type()) != nil {
+					structRes = true
+				}
+			}
+			if !structRes {
+				return
+			}
+			var keep []Fact
+			for _, f := range g.factsFromCall(call, "always", "result of "+FuncName(h)) {
+				mentions := false
+				for _, sy := range f.D.Symbols() {
+					if strings.HasPrefix(sy, "v") && strings.Contains(sy, ":") {
+						mentions = true
+					}
+				}
+				if mentions {
+					keep = append(keep, f)
+				}
+			}
+			g.resFacts[call] = keep
+		})
+	}
+	var out []Fact
+	for call, fs := range g.resFacts {
+		if !InstrDominates(call, at) {
+			continue
+		}
+		out = append(out, fs...)
+		// facts that hold when a bool field of the result says so (`if !x.found { break }`)
+		for _, ct := range controllingIfs(at.Block()) {
+			cond := ct.If.Cond
+			truth := ct.Branch == 0
+			if u, ok := cond.(*ssa.UnOp); ok && u.Op == token.NOT {
+				cond, truth = u.X, !truth
+			}
+			fname := ""
+			switch fx := cond.(type) {
+			case *ssa.Field:
+				if fx.X == ssa.Value(call) {
+					if st := derefStruct(fx.X.Type()); st != nil {
+						fname = st.Field(fx.Field).Name()
+					}
+				}
+			case *ssa.UnOp:
+				// the result kept in a local: x := call; ... x.found
+				if src, okS := localStructSource(fx); okS && src == ssa.Value(call) {
+					if fa, okF := fx.X.(*ssa.FieldAddr); okF {
+						if st := derefStruct(fa.X.Type()); st != nil {
+							fname = st.Field(fa.Field).Name()
+						}
+					}
+				}
+			}
+			if fname == "" {
+				continue
+			}
+			mode := fmt.Sprintf("when:%s=%d", fname, map[bool]int{true: 1, false: 0}[truth])
+			key := resCondKey{call, mode}
+			if g.resCond == nil {
+				g.resCond = map[resCondKey][]Fact{}
+			}
+			if _, done := g.resCond[key]; !done {
+				var keep []Fact
+				for _, f := range g.factsFromCall(call, mode, "result of "+FuncName(call.Call.StaticCallee())+" "+mode) {
+					for _, sy := range f.D.Symbols() {
+						if strings.HasPrefix(sy, "v") && strings.Contains(sy, ":") {
+							keep = append(keep, f)
+							break
+						}
+					}
+				}
+				g.resCond[key] = keep
+			}
+			out = append(out, g.resCond[key]...)
+		}
+	}
+	return out
+}
+
+type resCondKey struct {
+	call *ssa.Call
+	mode string
 }
